@@ -9,6 +9,16 @@ def unique_id() -> str:
     return "".join(random.choices("abcdefghijklmnopqrstuvwxyz", k=10))
 
 
+def int_constant(value: int) -> expr:
+    """
+    Build the AST that the parser produces for an int literal:
+    a negative number is `UnaryOp(USub, Constant)`, never `Constant(-n)`
+    """
+    if value < 0:
+        return UnaryOp(op=USub(), operand=Constant(value=-value))
+    return Constant(value=value)
+
+
 def convert_slice(_slice: Slice) -> Call:
     """
     Convert slice expt to a call of slice function
